@@ -717,6 +717,9 @@ func c04Age(s string) (time.Duration, bool) {
 		return c04TTL, true
 	case "ttl+1":
 		return c04TTL + time.Second, true
+	case "ttl-half":
+		// half a second younger than the TTL: the copy's mtime is not a whole second
+		return c04TTL - 500*time.Millisecond, true
 	}
 	return 0, false
 }
@@ -1090,6 +1093,9 @@ func c04HistConfigs() []c04Cfg {
 		}
 	}
 	add(c04Cfg{Vols: "w", Trash: false, Life: life, Init: "ttl+1"})
+	// a copy whose age differs from the TTL by a fraction of a second (shallower: the clock events are whole seconds)
+	add(c04Cfg{Vols: "w", Trash: true, Life: life, Init: "ttl-half", Depth: depth - 1})
+	add(c04Cfg{Vols: "w", Trash: true, Life: 0, Init: "ttl-half", Depth: depth - 2})
 	add(c04Cfg{Vols: "rw", Trash: true, Life: life, Init: "ttl+1", InitVol: 0})
 	add(c04Cfg{Vols: "rw", Trash: true, Life: life, Init: "ttl+1", InitVol: 1, Init2: "ttl+1"})
 	add(c04Cfg{Vols: "ww", Trash: true, Life: life, Init: "ttl+1", InitVol: 0, Init2: "ttl-1"})
